@@ -11,3 +11,120 @@ ASSUMPTIONS = ['user-overridable stages (constructor, init, setup, loop_once/pro
 UNDECIDED_CLAUSES = ['"with matching policies the whole connected pipeline terminates": needs delivery of the exit message and every neighbour\'s schedule (several processes) - NOT decided']
 EXPLANATION = 'Symbolic execution of the real Filter.run with abstract stages and a ghost call log; every exit of run() is checked against the lifecycle clauses of the statement.'
 UNITS = [RunUnit({'C08'}), LoopOnceUnit(('C08',)), InitUnit(('C08',))]
+
+
+# ------------------------------------------------------------------------------------------------ the announcement reaches every neighbour's channel
+import itertools as _it
+import z3 as _z3
+from pyvc.runner import Unit as _Unit
+from pyvc.values import *
+from .common import new_exec, closure, register_class
+from .zmqmodel import ZMQ, install as _install, zmq_consts, json_dumps as _jd, json_loads as _jl, PushSocketModel as _Push
+
+MQ = 'openfilter/filter_runtime/mq.py'
+
+
+class _AgainPush:
+    """PUSH socket: send_multipart(DONTWAIT) either queues the message or raises zmq.Again (queue full); both outcomes are logged"""
+    @staticmethod
+    def m_send_multipart(ex, o, msg, flags=0):
+        if ex.decide(_z3.Bool(f'push_again#{len(ex.conds)}')):
+            o.f['again'].append(o.f['_k'])
+            raise ExcSig('Again', 'push.send_multipart')
+        o.f['log'].append((o.f['_k'], list(msg)))
+
+
+class _Pub:
+    m_send_multipart = staticmethod(lambda ex, o, msg, flags=0: o.f['log'].append((o.f['_k'], list(msg))))
+
+
+class AnnounceUnit(_Unit):
+    """real MQ.send_exit_msg -> real ZMQReceiver.send_oob / Sender.send_push and real ZMQSender.send_oob: the exit announcement is handed to the request channel of EVERY
+    source that has one (whether or not that source has been heard yet) and to every PUB socket, carrying the reason"""
+    name = 'MQ.send_exit_msg / ZMQReceiver.send_oob / ZMQSender.send_oob'
+    targets = (f'{MQ}::MQ.send_exit_msg', f'{ZMQ}::ZMQReceiver.send_oob', f'{ZMQ}::ZMQReceiver.Sender.send_push', f'{ZMQ}::ZMQSender.send_oob')
+    required_covers = ('announced upstream', 'announced downstream')
+    mutants = (('exit announced only to sources already heard', f'{ZMQ}::ZMQReceiver.send_oob', 'sender.send_push(msg0, msg_)', 'sender.conn and sender.send_push(msg0, msg_)', 'C08.announce_delivery'),
+               ('exit not announced downstream', f'{MQ}::MQ.send_exit_msg', 'self.sender.send_oob(reason)', 'pass', 'C08.announce_delivery'))
+
+    def shapes(self, tier):
+        return [(has_r, has_s, ephs) for has_r in (True, False) for has_s in (True, False) for n in ((1, 2) if tier == 'quick' else (1, 2, 3))
+                for ephs in _it.product((0, 1, 2), repeat=n) if has_r or ephs == (0,)]
+
+    def run(self, shape, dec):
+        has_r, has_s, ephs = shape
+        ex = new_exec(dec, ZMQ)
+        ex.modules[ZMQ] = zmq_consts()
+        _install(ex)
+        register_class(ex, ZMQ, 'ZMQReceiver')
+        register_class(ex, ZMQ, 'ZMQReceiver.Sender')
+        register_class(ex, ZMQ, 'ZMQSender')
+        ex.models.update(pushsock=_AgainPush, pubsock=_Pub)
+        pushlog, again, publog = [], [], []
+        senders = {}
+        for k, e in enumerate(ephs):
+            sub = Obj('plainsock', _k=k)
+            push = Obj('pushsock', log=pushlog, again=again, _k=k) if e < 2 else None
+            senders[sub] = Obj('Sender', ephemeral=e, addr=f'a{k}', sub=sub, push=push, conn=_z3.Bool(f'conn{k}'), server_id=None, unique_id=f'u{k}')
+        recv = Obj('ZMQReceiver', client_id='c', senders=senders) if has_r else None
+        pubs = [Obj('pubsock', log=publog, _k=i) for i in range(2)]
+        snd = Obj('ZMQSender', server_id='srv', pubs=pubs, clients={}) if has_s else None
+        msnd = Obj('ZMQSender', server_id='msrv', pubs=[Obj('pubsock', log=publog, _k=9)], clients={}) if has_s and len(ephs) == 1 else None
+        g = ex.modules[ZMQ]
+        g.update(zmq=Obj('zmq', world=None), json_dumps=Native(_jd, 'json_dumps'), json_loads=Native(_jl, 'json_loads'))
+        ex.modules[MQ] = {}
+        me = Obj('MQ', receiver=recv, sender=snd, metrics_sender=msnd)
+        reason = _z3.String('reason')
+        try:
+            ex.call_closure(closure(MQ, 'MQ.send_exit_msg'), [me, reason], {})
+        except ExcSig as e:
+            ex.outcome = f'raise {e.cls}'
+            ex.oblige(f'C08.announce_delivery: send_exit_msg raises {e.cls} ({e.origin})', False)
+            return ex
+        ex.outcome = 'return'
+        O = ex.oblige
+
+        def is_oob(parts, who):
+            body = parts[0].f['of'] if isinstance(parts[0], Obj) and parts[0].cls == 'jsonbytes' else (parts[1].f['of'] if len(parts) > 1 and isinstance(parts[1], Obj) and parts[1].cls == 'jsonbytes' else {})
+            return isinstance(body, dict) and body.get('mid') == -2 and body.get('xtra') is reason
+        if has_r:
+            ex.cover('announced upstream')
+            for k, e in enumerate(ephs):
+                got = [m for kk, m in pushlog if kk == k and is_oob(m, k)]
+                if e < 2:
+                    O(f'C08.announce_delivery: the exit announcement is handed to the request channel of source {k} exactly once (or its queue was full), whether or not that source was heard before',
+                      len(got) + again.count(k) == 1)
+                else:
+                    O(f'C08.announce_delivery: a ?? source has no channel to announce on', len(got) == 0)
+        if has_s:
+            ex.cover('announced downstream')
+            for p in pubs + ([msnd.f['pubs'][0]] if msnd is not None else []):
+                got = [m for kk, m in publog if kk == p.f['_k'] and is_oob(m, kk)]
+                O(f'C08.announce_delivery: the exit announcement is published once on PUB socket {p.f["_k"]}', len(got) == 1)
+        return ex
+
+
+def replay_announce(failure):
+    """native: a real ZMQReceiver over the in-memory sockets, some sources heard and some not; send_oob must reach the request channel of every source that has one"""
+    import json, logging
+    logging.disable(logging.CRITICAL)
+    from replay_drivers import zmq_history
+    Z = zmq_history.load()
+    obs = []
+    for ephs in ((0,), (0, 0), (0, 1), (1, 0, 2)):
+        for heard in ([], [0]):
+            r = Z.ZMQReceiver([(f'tcp://h{k}:{6000 + 2 * k}' + '?' * e, None) for k, e in enumerate(ephs)], 'sink')
+            snds = list(r.senders.values())
+            for k in heard:
+                snds[k].conn = True
+            r.send_oob(['bye'])
+            for k, (e, snd) in enumerate(zip(ephs, snds)):
+                got = [m for m in (snd.push.sent if snd.push is not None else []) if json.loads(m[0]).get('mid') == -2 and json.loads(m[0]).get('xtra') == 'bye']
+                if e < 2 and len(got) != 1:
+                    obs.append(f'sources {ephs}, heard so far {heard}: source {k} was handed {len(got)} exit announcements')
+    return {'confirmed': bool(obs), 'inputs': 'ZMQReceiver.send_oob(["bye"]) with sources not yet heard (conn False) and heard (conn True)', 'observed': obs or 'every source with a request channel got the announcement',
+            'required': 'an exit is announced to every neighbour, also one that has not been heard yet (exit during setup / before the first frame)'}
+
+
+AnnounceUnit.replay = lambda self, failure: replay_announce(failure)
+UNITS.append(AnnounceUnit())
